@@ -22,7 +22,7 @@ TECH = {
     "C10": "RF-PAIR reference typestate + RF-DOM free-only-at-zero + RF-CORR coupled counters",
     "C11": "RF-DOM cursor patch before free + RF-TYPESTATE no use after callback + RF-WHO single writer",
     "C12": "RF-NOWRITE failure leaves outputs untouched (path-sensitive typestate) + RF-NEG decode-error taint + RF-BITS bit-provenance abstract evaluation of the VPS/DVB-PDC encoders against their decoders",
-    "C13": "RF-DOM debounce-condition dominance on every announcement site",
+    "C13": "RF-DOM debounce-condition dominance (structural branch atoms) on every announcement/reset site + RF-CORR must-pass-through re-arm/clear of the debounce state",
     "C14": "RF-PAIR path-sensitive typestate (TZ change/restore) + RF-WHO who-may-call + RF-DEP save-before-set",
     "C15": "RF-DEP flags provenance + RF-INIT + RF-DOM CRC/Hamming dominance + RF-PURE",
     "C16": "RF-WHO export write layer + RF-DOM grow-before-store",
